@@ -499,6 +499,64 @@ fn gen_offsets_tx(rng: &mut Rng, kind: usize, shape: usize, thorough: bool) -> T
     }
 }
 
+/// precompute, EDIT the transaction through the `_mut` accessors (the cached offsets are now stale
+/// by design), precompute AGAIN: every cached answer must equal the uncached answer of the edited
+/// value and locate the bytes of its `to_bytes()`
+fn edit_then_recompute(out: &mut Out, rng: &mut Rng, tx: &Transaction, label: &str) {
+    let kind = kind_index(tx);
+    let mut pc = tx.clone();
+    if pc.precompute(&ChainId::new(7)).is_err() { out.count("oracle/edit/precompute-failed"); return; }
+    let mut edits: Vec<&'static str> = vec![];
+    macro_rules! edit_common {
+        ($t:expr) => {{
+            match rng.below(6) {
+                0 => { let i = gen_input(rng, false); $t.inputs_mut().push(i); edits.push("input-pushed"); }
+                1 => { if $t.inputs_mut().pop().is_some() { edits.push("input-popped"); } }
+                2 => { let i = gen_input(rng, false); $t.inputs_mut().insert(0, i); edits.push("input-inserted-first"); }
+                3 => { let o = gen_output(rng); $t.outputs_mut().insert(0, o); edits.push("output-inserted-first"); }
+                4 => { let w = gen_witness(rng, false); $t.witnesses_mut().insert(0, w); edits.push("witness-inserted-first"); }
+                _ => { if let Some(Input::CoinPredicate(c)) = $t.inputs_mut().iter_mut().find(|i| i.is_coin_predicate()) { c.predicate_data.extend_from_slice(&[1, 2, 3]); edits.push("predicate-data-grown"); } }
+            }
+        }};
+    }
+    match &mut pc {
+        Transaction::Script(s) => {
+            // change the script length so that its 8-byte-padded size changes
+            let add = 1 + rng.below(16) as usize;
+            let grow = (s.script().len() + add + 7) / 8 != (s.script().len() + 7) / 8;
+            s.script_mut().extend(std::iter::repeat(0x5a).take(if grow { add } else { add + 8 }));
+            edits.push("script-padded-size-changed");
+            if rng.bool() { s.script_data_mut().extend_from_slice(&[9; 5]); edits.push("script-data-grown"); }
+            edit_common!(s);
+        }
+        Transaction::Create(c) => edit_common!(c),
+        Transaction::Upgrade(u) => edit_common!(u),
+        Transaction::Upload(u) => { u.proof_set_mut().push(rng.bytes32().into()); edits.push("proof-pushed"); edit_common!(u) }
+        Transaction::Blob(b) => edit_common!(b),
+        Transaction::Mint(_) => return,
+    }
+    if pc.precompute(&ChainId::new(7)).is_err() { out.count("oracle/edit/second-precompute-failed"); return; }
+    // the edited value without any metadata
+    let Some(plain_tx) = tx_from_kind_val(kind, &kind_val(&pc)) else { out.count("oracle/edit/rebuild-failed"); return };
+    let lbl = format!("{}+edit[{}]", label, edits.join(","));
+    let cached = queries(&pc);
+    let plain = queries(&plain_tx);
+    oracle(out, &pc, &lbl, &cached, true);
+    for (a, b) in plain.iter().zip(cached.iter()) {
+        out.oracle_evaluations += 1;
+        if a.ans != b.ans || a.coq != b.coq {
+            out.oracle_fail(&format!("cached-offset-differs-after-edit-and-recompute/{}", a.name),
+                &format!("{} {}: {} = {:?} without metadata, {:?} after edit + second precompute", KIND_NAMES[kind], lbl, a.coq, a.ans, b.ans),
+                json!({"kind": "c04", "tx_kind": kind, "val": kind_val(&pc).json(), "edits": edits}));
+        }
+    }
+    if plain.len() != cached.len() {
+        out.oracle_fail("cached-offset-differs-after-edit-and-recompute/query-count", &format!("{} {}: {} vs {} answers", KIND_NAMES[kind], lbl, plain.len(), cached.len()),
+            json!({"kind": "c04", "tx_kind": kind, "val": kind_val(&pc).json(), "edits": edits}));
+    }
+    out.count("oracle/edit-then-recompute");
+}
+
 fn one(out: &mut Out, tx: &Transaction, label: &str, model: bool) {
     let kind = kind_index(tx);
     let v = kind_val(tx);
@@ -560,6 +618,7 @@ fn run(args: &Args, out: &mut Out) {
             for i in 0..n_oracle.max(n_model) {
                 let tx = gen_offsets_tx(&mut rng, kind, shape, thorough);
                 one(out, &tx, labels[shape], i < n_model && !args.oracle_only);
+                if i % 2 == 0 { edit_then_recompute(out, &mut rng, &tx, labels[shape]); }
             }
         }
     }
